@@ -46,8 +46,11 @@ type RevocationStore struct {
 
 	// buckets is an array of elements from which we may derive all
 	// previous elements, each bucket corresponds to the element with the
-	// particular number of trailing zeros.
-	buckets [maxHeight]element
+	// particular number of trailing zeros. An index may have anywhere from
+	// zero up to and including maxHeight trailing zeros (the final index
+	// of the chain, zero, lands in bucket maxHeight), so maxHeight+1
+	// buckets are required (BOLT-3 specifies 49 entries).
+	buckets [maxHeight + 1]element
 
 	// index is an available index which will be assigned to the new
 	// element.
